@@ -74,7 +74,10 @@ Selected(tree, f) == { q \in tree : Included(f, q) /\ ~Excluded(tree, f, q) }
 ExtraOK(tree, f, q) == q.path # <<>> /\ ~Included(f, q) /\ ~Excluded(tree, f, q)
                        /\ \E k \in 1..Len(f.extra) : NameMatch(f, f.extra[k], q)
 Parent(q) == SubSeq(q.path, 1, Len(q.path) - 1)
-MustExtra(tree, f) == { q \in tree : ExtraOK(tree, f, q) /\ \E s \in Selected(tree, f) : s.path # <<>> /\ Parent(s) = Parent(q) }
+\* (only inside a searched tree: the parent directory lies at or below some pattern's literal base)
+MustExtra(tree, f) == { q \in tree : /\ ExtraOK(tree, f, q)
+                                     /\ \E k \in 1..Len(f.include) : IsPrefix(BaseOf(f.include[k]), Parent(q))
+                                     /\ \E s \in Selected(tree, f) : s.path # <<>> /\ Parent(s) = Parent(q) }
 MayExtra(tree, f) == { q \in tree : ExtraOK(tree, f, q) }
 
 TreeOK(tree) == /\ [path |-> <<>>, dir |-> TRUE] \in tree
